@@ -3,7 +3,7 @@
    operation trace) refines lexical scoping. partial: the mapping program -> operations
    (setVarIdPass1's declaration recognition) and overload resolution are tied by runs only. *)
 From Coq Require Import List NArith Bool Sorted.
-From CV Require Import Base.Bytes Names.Defs Names.VmProofs.
+From CV Require Import Base.Bytes Names.Defs Names.VmProofs Names.FindDefs Names.FindProofs.
 Import ListNotations.
 Local Open Scope N_scope.
 
@@ -67,3 +67,38 @@ Example C08_vm_leave_restores_inhabited :
   let pre := [Add [120] true] in let body := [Add [120] false; Enter; Add [121] false; Leave; Add [121] false] in
   bal 0 body = true /\ bal 0 [Add [120] false; Add [120] false] = true.
 Proof. vm_compute. split; reflexivity. Qed.
+
+(* ---- the function half: Scope::findFunction / ValueType::matchParameter for free functions with value parameters of
+   builtin arithmetic type (Names/FindDefs.v), against C++'s best viable function *)
+
+(* sound where it matters most: a candidate that matches every argument exactly, being the only such candidate, is what
+   findFunction returns, and it is the best viable function (unbounded in the number of overloads and in arity,
+   default arguments included) *)
+Theorem C08_find_function_sound_partial : forall fs args i f,
+  In (i, f) (cands fs (length args) 0) ->
+  is_exact f args = true ->
+  (forall j g, In (j, g) (cands fs (length args) 0) -> j <> i -> is_exact g args = false) ->
+  find_function fs args = Some i /\ is_best fs args i = true.
+Proof. exact find_function_exact_sound. Qed.
+Print Assumptions C08_find_function_sound_partial.
+
+Example C08_find_function_sound_partial_inhabited :
+  let fs := [mkSig [sL] 0; mkSig [sI; sD] 1; mkSig [sI; sI] 0] in
+  cands fs 1 0 = [(0, mkSig [sL] 0); (1, mkSig [sI; sD] 1)]%nat /\ is_exact (mkSig [sI; sD] 1) [sI] = true /\
+  is_exact (mkSig [sL] 0) [sI] = false /\ find_function fs [sI] = Some 1%nat.
+Proof. vm_compute. repeat split; reflexivity. Qed.
+
+(* a single arity-viable candidate is returned whatever its conversions *)
+Theorem C08_find_function_single : forall fs args i f,
+  cands fs (length args) 0 = [(i, f)] -> find_function fs args = Some i /\ is_best fs args i = true.
+Proof. exact find_function_single. Qed.
+Print Assumptions C08_find_function_single.
+
+(* beyond that the FALLBACK1/FALLBACK2 ranking is not C++'s (full soundness is refuted):
+   f(int) f(long) f(double), f(short): two FALLBACK1 candidates tie and the FALLBACK2 candidate f(double) wins (C++: f(int));
+   g(long,long) g(double,int), g(int,short): the FALLBACK1 candidate wins (C++: g(double,int)) *)
+Theorem C08_find_function_fallback_refuted :
+  (find_function w1_fs [sS] = Some 2%nat /\ best_viable w1_fs [sS] = Some 0%nat) /\
+  (find_function w2_fs [sI; sS] = Some 0%nat /\ best_viable w2_fs [sI; sS] = Some 1%nat).
+Proof. exact find_function_fallback_refuted. Qed.
+Print Assumptions C08_find_function_fallback_refuted.
